@@ -739,6 +739,94 @@ CFG_PH = {"name": "src_parse_host", "params": [("host", "list N")], "ret": "mres
           "try_shapes": [try_inet6, try_inet4], "ret_render": ret_parse_host}
 
 
+# ---- unquote ------------------------------------------------------------------------------------------------------
+def normalise_unquote(node, module_path):
+    """specialise encoding/errors to their defaults ('utf-8', 'replace': the only way urlutils calls unquote), turn the
+    index loop `for i in range(1, len(bits), 2): ... bits[i] ... bits[i + 1]` into a loop over the pairs
+    (bits[1], bits[2]), (bits[3], bits[4]), ...; re.split with one group always returns an odd number of pieces"""
+    d = {a.arg: v for a, v in zip(node.args.args[len(node.args.args) - len(node.args.defaults):], node.args.defaults)}
+    if not (isinstance(d.get("encoding"), ast.Constant) and d["encoding"].value == "utf-8" and
+            isinstance(d.get("errors"), ast.Constant) and d["errors"].value == "replace"):
+        raise Unsupported("defaults of unquote changed")
+    src = open(module_path).read()
+    if "_ASCII_RE = re.compile('([\\x00-\\x7f]+)')" not in src:
+        raise Unsupported("_ASCII_RE changed")
+    body = []
+    for st in node.body:
+        u = ast.unparse(st)
+        if u in ("if encoding is None:\n    encoding = 'utf-8'", "if errors is None:\n    errors = 'replace'"):
+            continue
+        if isinstance(st, ast.For):
+            if ast.unparse(st.iter) != "range(1, len(bits), 2)" or not _is_name(st.target, "i") or st.orelse:
+                raise Unsupported("unquote: loop header changed")
+
+            class Sub(ast.NodeTransformer):
+                def visit_Subscript(self, n):
+                    t = ast.unparse(n)
+                    if t == "bits[i]":
+                        return ast.Name(id="_a", ctx=ast.Load())
+                    if t == "bits[i + 1]":
+                        return ast.Name(id="_b", ctx=ast.Load())
+                    return self.generic_visit(n)
+            new_body = [Sub().visit(x) for x in st.body]
+            for x in new_body:
+                for n in ast.walk(x):
+                    if isinstance(n, ast.Name) and n.id in ("i", "bits"):
+                        raise Unsupported("unquote: the loop uses its index in another way")
+            st = ast.For(target=ast.Tuple(elts=[ast.Name(id="_a", ctx=ast.Store()), ast.Name(id="_b", ctx=ast.Store())],
+                                          ctx=ast.Store()),
+                         iter=ast.Call(func=ast.Name(id="_pairs1", ctx=ast.Load()), args=[ast.Name(id="bits", ctx=ast.Load())],
+                                       keywords=[]),
+                         body=new_body, orelse=[])
+        body.append(st)
+    node.body = body
+    node.args.args = [a for a in node.args.args if a.arg == "string"]
+    node.args.defaults = []
+    ast.fix_missing_locations(node)
+    return node
+
+
+def _meth_ascii_split(T, e, scope):
+    if ast.unparse(e) != "_ASCII_RE.split(string)":
+        raise Unsupported("split of an unknown shape: %s" % ast.unparse(e))
+    return "(ascii_bits string)"
+
+
+def _meth_decode_utf8(T, e, scope):
+    if [ast.unparse(a) for a in e.args] != ["encoding", "errors"] or e.keywords:
+        raise Unsupported("decode called with other arguments")
+    return "(utf8_dec %s)" % T.expr(e.func.value, scope)
+
+
+def _call_utb(T, e, scope):
+    if len(e.args) != 1 or e.keywords:
+        raise Unsupported("unquote_to_bytes called with other arguments")
+    return "(src_unquote_to_bytes %s)" % T.sexpr(e.args[0], scope)
+
+
+def iter_pairs1(T, e, scope):
+    if isinstance(e, ast.Call) and _is_name(e.func, "_pairs1") and len(e.args) == 1:
+        return "(py_pairs1 %s)" % T.expr(e.args[0], scope)
+    return None
+
+
+class UQ(UT):
+    def method(self, e, scope):
+        if e.func.attr == "split" and ast.unparse(e.func.value) == "_ASCII_RE":
+            return _meth_ascii_split(self, e, scope)
+        if e.func.attr == "decode":
+            return _meth_decode_utf8(self, e, scope)
+        return super().method(e, scope)
+
+
+CFG_UNQ = {"name": "src_unquote", "params": [("string", "list N")], "ret": "list N", "num": "Z",
+           "kinds": {"string": "str", "bits": "lstr", "res": "lstr", "_a": "str", "_b": "str"},
+           "rv_default": "(@nil N)", "globals": GLOBALS, "truthy": {"str": "nonempty", "lstr": "is_nonempty"},
+           "calls": {"unquote_to_bytes": (_call_utb, "str")},
+           "subscripts": {("lstr", "[0]"): ("py_first", "str")},
+           "iterables": [iter_pairs1], "shapes": [shape_attr_probe, shape_append_alias]}
+
+
 HEADER = """(* GENERATED on every run by harness/translators/c06_src.py from %s; do not edit. *)
 From Boltons Require Import Lib.Prelude Lib.PySrc Lib.C06_Text Model.C06_Model Lib.C06_PySrc.
 Open Scope N_scope.
@@ -758,6 +846,7 @@ def generate(repo):
         out.append(UT(cfg_quote(fn)).function(node))
     node = normalise_utb(py2coq.get_function(path, "unquote_to_bytes"))
     out.append(UT(dict(CFG_UTB)).function(node))
+    out.append(UQ(dict(CFG_UNQ)).function(normalise_unquote(py2coq.get_function(path, "unquote"), path)))
     node = normalise_qsl(py2coq.get_function(path, "parse_qsl"))
     out.append(UT(dict(CFG_QSL)).function(node))
     out.append(UT(dict(CFG_QTT)).function(py2coq.get_function(path, "QueryParamDict.to_text")))
